@@ -90,7 +90,13 @@ struct Run {
     w: usize,
     /// per dispatch (in order): [cid+1, worker, clean(bool)] where clean = after the increment every
     /// handle in the rotation was marked available and below the limit, and no fault/rejoin followed
-    dlog: Vec<(usize, usize, bool)>,
+    dlog: Vec<(usize, usize, bool, usize, bool, usize)>,
+    /// ground-truth reading of "while no worker is saturated": a calm phase starts at a settled state in which every
+    /// worker is in the rotation, alive and below its limit (then - lemma C04_BitsTrueWhenCalm of the specification - all
+    /// availability bits are set) and ends as soon as some worker reaches its limit or a worker dies / is replaced
+    calm_phase: bool,
+    /// per dispatch: the phase was calm and after this send every worker was still below its limit
+    dcalm: Vec<bool>,
     ever_faulted: bool,
     pending_faults: Vec<usize>,
     injected: Vec<usize>, // outstanding injected errors per listener
@@ -100,7 +106,6 @@ struct Run {
     /// per worker: virtual time at which a poll moved it into its graceful shutdown state (-1: not)
     shutdown_since: Vec<i64>,
     shutdown_ms: u64,
-    #[allow(dead_code)]
     limit: usize,
     nlisteners: usize,
 }
@@ -192,7 +197,7 @@ impl Run {
             "served": served, "closed": closed,
             "listener": s.listener.iter().map(|l| l + 1).collect::<Vec<_>>(),
             "connected": s.connected,
-            "dlog": self.dlog.iter().map(|d| json!([d.0, d.1, d.2])).collect::<Vec<_>>(),
+            "dlog": self.dlog.iter().enumerate().map(|(k, d)| json!([d.0, d.1, d.2, d.3, d.4, d.5, self.dcalm.get(k).copied().unwrap_or(false)])).collect::<Vec<_>>(),
             "faults": s.faults, "everFaulted": self.ever_faulted,
             "cmdq": pending_faults(s),
             "skipped": s.skipped,
@@ -309,6 +314,8 @@ fn run_schedule(run_id: usize, sch: &Value, dir: &str, trace: &mut Trace, strict
         sim,
         w,
         dlog: vec![],
+        calm_phase: false,
+        dcalm: vec![],
         ever_faulted: false,
         pending_faults: vec![],
         injected: vec![0; listeners.len()],
@@ -338,6 +345,7 @@ fn run_schedule(run_id: usize, sch: &Value, dir: &str, trace: &mut Trace, strict
         let disp_before = prev.dispatched.len();
         let mut resume_seen = prev.wq.iter().any(|n| n == "Resume");
         let mut pre_snap: Option<Snap> = None; // the step's snapshot when it was already taken (and absorbed)
+        let mut paused_dispatch = false; // Settle: some iteration started paused (no Resume queued) and dispatched
         match d {
             "Iter" => {
                 let mut anchored = vec![];
@@ -368,14 +376,23 @@ fn run_schedule(run_id: usize, sch: &Value, dir: &str, trace: &mut Trace, strict
                     if prev.wq.iter().any(|n| n == "Resume") {
                         resume_seen = true;
                     }
+                    // an iteration that starts paused, with no Resume waiting, must not dispatch
+                    let p0 = prev.paused && !prev.wq.iter().any(|n| n == "Resume");
+                    let d0 = prev.dispatched.len();
                     run.sim.iterate(vec![]);
                     let s = run.sim.snapshot();
+                    if p0 && s.dispatched.len() > d0 {
+                        paused_dispatch = true;
+                    }
                     let sig = signature(&s);
-                    let empty = s.wq.is_empty();
+                    // settled = the accept thread is blocked in its poll (no readiness or waker event pending, no
+                    // back-off deadline due) and nothing it can see has changed.  The waker queue is NOT required to be
+                    // empty: interests left in the queue of a blocked accept thread are wake-ups that were lost.
+                    let blocked = !run.sim.last_iter.0;
                     absorb(&mut run, &s);
                     strict_iter(strict, &mut run, run_id, &s, &[]);
                     prev = s;
-                    if sig == last && empty {
+                    if sig == last && blocked {
                         stable += 1;
                         if stable >= 2 {
                             break;
@@ -400,6 +417,16 @@ fn run_schedule(run_id: usize, sch: &Value, dir: &str, trace: &mut Trace, strict
                 }
                 q = stable >= 2;
                 pe = false;
+                // a calm phase starts here if every worker is in the rotation, alive, below its limit (measured), nothing
+                // is queued for the accept thread and no fault report is unanswered
+                let mut hs = prev.handles.clone();
+                hs.sort();
+                if q && prev.panicked.is_empty() && !prev.exited && prev.wq.is_empty() && hs == (0..w).collect::<Vec<_>>()
+                    && prev.alive.iter().all(|a| *a) && pending_faults(&prev).is_empty()
+                    && (0..w).all(|i| (prev.chan[i].max(0) as usize) + prev.inprog[i].len() < limit)
+                {
+                    run.calm_phase = true;
+                }
             }
             "PollWoken" => {
                 for i in run.sim.woken_workers() {
@@ -472,7 +499,7 @@ fn run_schedule(run_id: usize, sch: &Value, dir: &str, trace: &mut Trace, strict
             _ => vec![],
         };
         let mut rec = json!({"ev": "step", "run": run_id, "k": k, "do": d, "q": q,
-            "pe": pe && d == "Iter", "ndisp": ndisp, "st": run.project(&s),
+            "pe": pe && d == "Iter", "pausedDispatch": paused_dispatch, "ndisp": ndisp, "st": run.project(&s),
             "polled": polled_workers, "prevStop": prev_stop, "prevTotal": prev_total, "prevLive": prev_live, "replyNow": reply_now,
             "prevWstate": prev.wstate, "prevSstatus": prev.sstatus,
             "shutdownSince": run.shutdown_since, "shutdownMs": run.shutdown_ms});
@@ -511,10 +538,18 @@ fn run_schedule(run_id: usize, sch: &Value, dir: &str, trace: &mut Trace, strict
 fn note_env(run: &mut Run, st: &Value) {
     match gets(st, "do") {
         "Kill" => {
+            run.calm_phase = false;
+            if let Some(l) = run.dcalm.last_mut() {
+                *l = false; // the rotation is disturbed between the last dispatch and the next one
+            }
             run.ever_faulted = true;
             run.killed[geti(st, "i") as usize] = true;
         }
         "Replace" => {
+            run.calm_phase = false;
+            if let Some(l) = run.dcalm.last_mut() {
+                *l = false;
+            }
             let i = geti(st, "i") as usize;
             run.killed[i] = false;
             run.pending_faults.retain(|x| *x != i);
@@ -530,9 +565,18 @@ fn absorb(run: &mut Run, s: &Snap) {
     run.dlog = s
         .dispatched
         .iter()
-        .zip(s.dclean.iter())
-        .map(|((cid, wi, _), clean)| (cid + 1, *wi, *clean))
+        .enumerate()
+        .map(|(k, (cid, wi, gen))| {
+            (cid + 1, *wi, s.dclean.get(k).copied().unwrap_or(false), s.dload.get(k).copied().unwrap_or(0), s.dafterfail.get(k).copied().unwrap_or(false), *gen)
+        })
         .collect();
+    for k in run.dcalm.len()..s.dispatched.len() {
+        let below = s.dmaxload.get(k).map(|m| *m < run.limit).unwrap_or(false);
+        run.dcalm.push(run.calm_phase && below);
+        if !below {
+            run.calm_phase = false;
+        }
+    }
     // injected errors consumed: an "accepted" point with code 2 (error) per consumption
     for (k, code) in s.points.iter() {
         if k == "accepted" && *code == 2 {
